@@ -164,6 +164,12 @@ func traverseAll(r *Run, pj *simdjson.ParsedJson, what string) bool {
 				if els, e := obj.Parse(nil); e == nil {
 					els.MarshalJSON()
 					els.Lookup("a")
+					els.MarshalJSON()
+					for i := range els.Elements {
+						if i < 16 {
+							els.Elements[i].Iter.Interface()
+						}
+					}
 				}
 				obj.ForEach(func(key []byte, i simdjson.Iter) { i.Interface() }, map[string]struct{}{"a": {}})
 			}
